@@ -1039,4 +1039,150 @@ theorem runWorld_get (K : Keyed) (evs : List (Nat × Token)) : ∀ (w : List Vie
       have hne : (e.1 == i) = false := by simpa using he
       simp [offeredTo, hne]
 
+/-! ### what gather_token returns, what unserialize_public's flag means -/
+
+theorem drain_hasId_mono (els unc stack : List Token) (h : Bytes) (hh : hasId C els h = true) :
+    hasId C (drain C g cap els unc stack).els h = true := by
+  fun_induction drain C g cap els unc stack with
+  | case1 els unc => exact hh
+  | case2 els unc r rest hv ih => exact ih hh
+  | case3 els unc r rest hv ho ih => exact ih hh
+  | case4 els unc r rest hv ho hd ih => exact ih (by rw [hasId_absorb]; exact hh)
+  | case5 els unc r rest hv ho hd ih => exact ih (by rw [hasId_append, hh]; rfl)
+
+theorem gatherAll_hasId_mono (tr : Tree) (ts : List Token) (h : Bytes) (hh : hasId C tr.els h = true) :
+    hasId C (gatherAll C g cap tr ts).els h = true := by
+  induction ts generalizing tr with
+  | nil => exact hh
+  | cons t ts ih =>
+    simp only [gatherAll, List.foldl_cons]
+    exact ih _ (drain_hasId_mono _ _ _ _ hh)
+
+theorem gather_return (tr : Tree) (t : Token) :
+    ((gatherKind C g tr t).isSome = true → hasId C (gather C g cap tr t).els (t.id C) = true) ∧
+    ((gatherKind C g tr t).isSome = false → (gather C g cap tr t).els = tr.els) := by
+  unfold gather gatherKind
+  rw [drain]
+  by_cases hv : (!t.valid C) = true
+  · simp [hv, drain_nil, Kind.isSome]
+  · by_cases ho : (t.prev != g && !hasId C tr.els t.prev) = true
+    · simp [hv, ho, drain_nil, Kind.isSome]
+    · by_cases hd : hasId C tr.els (t.id C) = true
+      · simp [hv, ho, hd, drain_nil, Kind.isSome, hasId_absorb]
+      · simp only [hv, ho, hd, Bool.false_eq_true, ↓reduceIte, Kind.isSome, forall_const, reduceCtorEq,
+          false_implies, and_true]
+        apply drain_hasId_mono
+        rw [hasId_append]; simp
+
+theorem gatherFlags_cons (tr : Tree) (t : Token) (ts : List Token) :
+    gatherFlags C g cap tr (t :: ts) =
+      ((gatherFlags C g cap (gather C g cap tr t) ts).1,
+       (gatherKind C g tr t).isSome && (gatherFlags C g cap (gather C g cap tr t) ts).2) := by
+  have := gatherFlags_append (C := C) (g := g) (cap := cap) tr [t] ts
+  simpa [gatherFlags] using this
+
+theorem flags_true_held (tr : Tree) (ts : List Token) (h : (gatherFlags C g cap tr ts).2 = true) :
+    ∀ t ∈ ts, hasId C (gatherFlags C g cap tr ts).1.els (t.id C) = true := by
+  induction ts generalizing tr with
+  | nil => intro t ht; cases ht
+  | cons a ts ih =>
+    rw [gatherFlags_cons] at h ⊢
+    simp only [Bool.and_eq_true] at h
+    intro t ht
+    rcases List.mem_cons.mp ht with rfl | h'
+    · rw [gatherFlags_fst]
+      exact gatherAll_hasId_mono _ _ _ ((gather_return tr t).1 h.1)
+    · exact ih _ h.2 t h'
+
+/-! ### a sufficient condition for `Fits` on the offered tokens alone -/
+
+variable (C g)
+
+/-- how many offers can ever reach the waiting area: signed by the tree key and not hanging off genesis
+    (duplicates counted) -/
+def waiters (ts : List Token) : Nat := (ts.filter (fun t => t.valid C && t.prev != g)).length
+
+variable {C g}
+
+theorem gather_unc_le_waiter (tr : Tree) (t : Token) :
+    (gather C g cap tr t).unc.length ≤ tr.unc.length + waiters C g [t] := by
+  unfold gather
+  rw [drain]
+  by_cases hv : (!t.valid C) = true
+  · rw [if_pos hv, drain_nil]; exact Nat.le_add_right _ _
+  · rw [if_neg hv]
+    by_cases ho : (t.prev != g && !hasId C tr.els t.prev) = true
+    · rw [if_pos ho, drain_nil]
+      have hv' : t.valid C = true := by simpa using hv
+      have hg : (t.prev != g) = true := by
+        simp only [Bool.and_eq_true] at ho; exact ho.1
+      have hw : waiters C g [t] = 1 := by simp [waiters, hv', hg]
+      have := uncAdd_length_le cap tr.unc t
+      show (uncAdd cap tr.unc t).length ≤ _
+      omega
+    · rw [if_neg ho]
+      by_cases hd : hasId C tr.els (t.id C) = true
+      · rw [if_pos hd, drain_nil]; exact Nat.le_add_right _ _
+      · rw [if_neg hd]
+        have h1 := drain_unc_le (C := C) (g := g) (cap := cap) (tr.els ++ [t]) (othersOf tr.unc (t.id C))
+          (kidsOf tr.unc (t.id C) ++ [])
+        have h2 := kids_others_length tr.unc (t.id C)
+        simp only [List.append_nil] at h1 ⊢
+        omega
+
+theorem fits_of_waiters (tr : Tree) (ts : List Token) (h : tr.unc.length + waiters C g ts ≤ cap) :
+    Fits C g cap tr ts := by
+  induction ts generalizing tr with
+  | nil => trivial
+  | cons t ts ih =>
+    have hsplit : waiters C g (t :: ts) = waiters C g [t] + waiters C g ts := by
+      simp only [waiters, List.filter_cons, List.filter_nil]
+      split <;> simp <;> omega
+    refine ⟨fun hk => ?_, ih _ ?_⟩
+    · have hw : waiters C g [t] = 1 := by
+        unfold gatherKind at hk
+        by_cases hv : (!t.valid C) = true
+        · simp [hv] at hk
+        · by_cases ho : (t.prev != g && !hasId C tr.els t.prev) = true
+          · have hv' : t.valid C = true := by simpa using hv
+            have hg : (t.prev != g) = true := by
+              simp only [Bool.and_eq_true] at ho; exact ho.1
+            simp [waiters, hv', hg]
+          · by_cases hd : hasId C tr.els (t.id C) = true <;> simp [hv, ho, hd] at hk
+      have := storeLen_le tr.unc t
+      omega
+    · have := gather_unc_le_waiter (C := C) (g := g) (cap := cap) tr t
+      omega
+
+/-! ### struct.error happens exactly on a length that is not a whole number of chunks -/
+
+theorem parse_ok_iff (n : Nat) (s : Bytes) :
+    (parseChunks n s).2 = (s.length % (Gen.chunkBase + n) == 0) := by
+  have hl := gen_layout
+  have hpos : 0 < Gen.chunkBase := by decide
+  fun_induction parseChunks n s with
+  | case1 s he =>
+    have : s = [] := by simpa using he
+    simp [this]
+  | case2 s he hlt =>
+    have hne : s.length ≠ 0 := by
+      intro h0; have : s = [] := List.eq_nil_of_length_eq_zero h0
+      simp [this] at he
+    have : s.length % (Gen.chunkBase + n) = s.length := Nat.mod_eq_of_lt (by omega)
+    simp [this, hne]
+  | case3 s he hlt r ih =>
+    simp only [r] at ih ⊢
+    rw [ih]
+    have hstep : Gen.chunkBase + n + (1 - (Gen.chunkBase + n)) = Gen.chunkBase + n := by omega
+    rw [hstep, List.length_drop]
+    have hge : Gen.chunkBase + n ≤ s.length := by omega
+    rw [Nat.mod_eq_sub_mod hge]
+
+/-- the code's behaviour for `maxdepth ≤ 0`, including the documented "-1": never True, never a path.
+    (A fact about today's code that the model mirrors; not part of the property and not judged by the oracle.) -/
+theorem verify_nonpositive (tr : Tree) (t : Token) (d : Int) (hd : d ≤ 0) :
+    verify C g tr t d = false ∧ rootPath C g tr t d = [] := by
+  have : d.toNat = 0 := by omega
+  simp [verify, rootPath, this, walk]
+
 end Ipv8.C16
